@@ -443,6 +443,15 @@ func runC20(c *core.Ctx) {
 			{"extra layout key of a non-signer", func(t *c20World) []string {
 				return append(append([]string{}, t.ownerPub...), filepath.Join(t.keys, "outsider.pub"))
 			}},
+			{"unloadable layout key file listed before a good one", func(t *c20World) []string {
+				bad := filepath.Join(t.keys, "truncated.pub")
+				b, _ := os.ReadFile(t.ownerPub[0])
+				os.WriteFile(bad, b[:len(b)/2], 0644)
+				return append([]string{bad}, t.ownerPub...)
+			}},
+			{"missing layout key file listed before a good one", func(t *c20World) []string {
+				return append([]string{filepath.Join(t.keys, "no-such-key.pub")}, t.ownerPub...)
+			}},
 			{"expired layout", func(t *c20World) []string {
 				l2 := layout
 				l2.Expires = "2001-01-01T00:00:00Z"
@@ -607,7 +616,7 @@ func init() {
 	core.Register(&core.Property{
 		ID:    "C20",
 		Level: "exploration",
-		Rule: "seeded supply chains of 1-3 steps carried out ONLY through the built `in-toto` binary: per step `run` or `record start` / (changes by hand) / `record stop`, options drawn from {--use-dsse, -c certificate with the CA in the layout (the certificate issued directly or by an intermediate CA that only `verify -i` supplies), -l strip prefix, -d metadata directory, --run-dir, -x, -e exclude}, step commands that are quiet / print several lines / write to stderr only; in a third of the chains the last step is carried out twice (a noisy first attempt, then the real one, both writing the same link path); layout written by the harness and signed with `in-toto sign` by 1-2 keys; link names checked against the verifier's naming; then `verify` on the honest chain and after each of 11 single tamperings (product byte, extra file, link content, link signature, link missing, link renamed, layout content, layout signed by an outsider, wrong -k, extra -k of a non-signer, expired layout), each time compared with library verification of a byte-identical copy; `sign --verify` with signer / outsider keys, `key id` on a key and on a non-key, `match-products` on untouched and locally changed products compared with InTotoMatchProducts. " +
+		Rule: "seeded supply chains of 1-3 steps carried out ONLY through the built `in-toto` binary: per step `run` or `record start` / (changes by hand) / `record stop`, options drawn from {--use-dsse, -c certificate with the CA in the layout (the certificate issued directly or by an intermediate CA that only `verify -i` supplies), -l strip prefix, -d metadata directory, --run-dir, -x, -e exclude}, step commands that are quiet / print several lines / write to stderr only; in a third of the chains the last step is carried out twice (a noisy first attempt, then the real one, both writing the same link path); layout written by the harness and signed with `in-toto sign` by 1-2 keys; link names checked against the verifier's naming; then `verify` on the honest chain and after each of 13 single tamperings (product byte, extra file, link content, link signature, link missing, link renamed, layout content, layout signed by an outsider, wrong -k, extra -k of a non-signer, an unloadable / missing key file listed before a good one, expired layout), each time compared with library verification of a byte-identical copy; `sign --verify` with signer / outsider keys, `key id` on a key and on a non-key, `match-products` on untouched and locally changed products compared with InTotoMatchProducts. " +
 			"non-trivial = the chain reached `verify`; distinct = (option set, tampering)",
 		Assumptions: []string{"the inspection of the generated layout runs in the directory `verify` is started in (a separate final-product directory)", "open known finding F6 also shows here: --use-dsse together with -c"},
 		Workers:     func(string) int { return 16 },
